@@ -28,7 +28,41 @@ BREAKS = {
     "break-under-if-in-main-loop": ("k = 0\nwhile True:\n    k += 1\n    if k > 1:\n        break\n    mon.write(k)\n", "reject"),
     "break-in-inner-for": ("while True:\n    for i in range(3):\n        if i == 1:\n            break\n        mon.write(i)\n    mon.write(9)\n", "accept"),
     "break-in-inner-while": ("while True:\n    j = 0\n    while j < 3:\n        j += 1\n        if j == 2:\n            break\n    mon.write(j)\n", "accept"),
+    # inside the clauses of a try statement that sits directly in the main loop body
+    "break-in-try-body-in-main-loop": ("while True:\n    try:\n        mon.write(1)\n        break\n    except Exception as e:\n        mon.write(0)\n", "reject"),
+    "break-in-except-in-main-loop": ("while True:\n    try:\n        mon.write(1)\n    except Exception as e:\n        break\n", "reject"),
+    "break-under-if-in-try-in-main-loop": ("k = 0\nwhile True:\n    k += 1\n    try:\n        if k > 1:\n            break\n        mon.write(k)\n    except Exception as e:\n        mon.write(0)\n", "reject"),
+    "break-in-inner-for-in-try": ("while True:\n    try:\n        for i in range(3):\n            if i == 1:\n                break\n            mon.write(i)\n    except Exception as e:\n        mon.write(0)\n    mon.write(9)\n", "accept"),
+    # `continue` that ends the pass: lowered to something that is valid where it stands (a bare `continue;` in loop() is not C++)
+    "continue-in-main-loop": ("k = 0\nwhile True:\n    k += 1\n    if k % 2 == 0:\n        continue\n    mon.write(k)\n", "accept"),
+    "continue-in-try-body-in-main-loop": ("k = 0\nwhile True:\n    k += 1\n    try:\n        if k % 2 == 0:\n            continue\n        mon.write(k)\n    except Exception as e:\n        mon.write(0)\n    mon.write(7)\n", "accept"),
+    "continue-in-except-in-main-loop": ("k = 0\nwhile True:\n    k += 1\n    try:\n        mon.write(k)\n    except Exception as e:\n        continue\n    mon.write(7)\n", "accept"),
 }
+
+
+def stray_jumps(cpp: str) -> list:
+    """`break;` / `continue;` lines of the emitted loop() that are not inside a C++ loop (or switch) of loop() itself: such a sketch
+    cannot compile, and a `break` there would be the main loop's.  The emitter's output is regular: one statement per line."""
+    import re
+    out, stack, inside = [], [], False
+    for ln in cpp.splitlines():
+        t = ln.strip()
+        if not inside:
+            if re.match(r"void\s+loop\s*\(\s*\)\s*\{", t):
+                inside, stack = True, ["fn"]
+            continue
+        if t in ("break;", "continue;") and not any(k == "loop" for k in stack):
+            out.append(t)
+        for ch_i, ch in enumerate(t):
+            if ch == "}":
+                if stack:
+                    stack.pop()
+                if not stack:
+                    return out
+            elif ch == "{":
+                head = t[:ch_i].split("}")[-1].strip()
+                stack.append("loop" if re.match(r"(for|while|switch)\b", head) or head == "do" else "blk")
+    return out
 
 
 def check(run) -> None:
@@ -89,7 +123,10 @@ def check(run) -> None:
     hdr = "\n".join(board.HEADER) + "\n"
     for name, (body, want) in BREAKS.items():
         run.count("break:" + name)
-        r = fw.run_script({"src": hdr + body, "passes": 3})
+        r = fw.run_script({"src": hdr + body, "passes": 3, "keep_cpp": True})
+        if want == "accept" and r["transpile"] == "accept" and stray_jumps(r.get("cpp", "")):
+            run.violation(f"{name}: the emitted loop() jumps out of nothing ({stray_jumps(r['cpp'])[0]} outside any loop of loop())",
+                          {"script": hdr + body, "cpp_loop": r["cpp"][r["cpp"].find("void loop"):][:1500]})
         if want == "reject" and r["transpile"] == "accept":
             passes = [e for e in r.get("events", []) if e.get("e") == "phase" and e.get("v") == "loop"]
             run.violation(f"{name}: a break that leaves the main loop was accepted", {"script": hdr + body, "passes_seen": len(passes)})
@@ -133,8 +170,15 @@ def replay(path: str) -> int:
             print(f"VIOLATION property=C05 replay={path}")
             return 1
         return 0
-    rr = fw.run_script({"src": r["script"], "passes": 3})
-    if rr["transpile"] == "accept":
+    rr = fw.run_script({"src": r["script"], "passes": 3, "keep_cpp": True})
+    if "cpp_loop" in r:                      # an accepted script whose loop() jumped out of nothing
+        bad = rr["transpile"] == "accept" and bool(stray_jumps(rr.get("cpp", "")))
+    elif "passes_seen" in r:                 # a break that leaves the main loop must be refused
+        bad = rr["transpile"] == "accept"
+    else:                                    # an inner break must not end the main loop
+        bad = rr["transpile"] == "accept" and rr.get("compile") == "ok" and \
+            len([e for e in rr["events"] if e.get("e") == "phase" and e.get("v") == "loop"]) != 3
+    if bad:
         print(f"VIOLATION property=C05 replay={path}")
         return 1
     return 0
